@@ -676,3 +676,65 @@ Lemma key_nosep_injective b b' p p' : key_nosep b p = key_nosep b' p' -> b = b' 
 Proof. destruct b, b'; cbn; intros H; inversion H; auto. Qed.
 Lemma key_nosep_collides : forall b, key_nosep b ".npy" = member b None /\ key_nosep b "" = base_name b.
 Proof. destruct b; split; reflexivity. Qed.
+
+(* ------------------------------------------------------------------------- *)
+(* corollaries in the form stated in Properties/C17.v                        *)
+(* ------------------------------------------------------------------------- *)
+Section Corollaries.
+  Context {X blob : Type}.
+  Variable npy : payload X -> blob.
+  Variable unnpy : blob -> option (payload X).
+  Hypothesis RTH : forall a, unnpy (npy a) = Some a.
+
+  Lemma history_roundtrip_cur fn pf (m : mineral X) l1 l2 (fs : @filesys blob) :
+    ends_with ".npz" fn = true -> wf m -> later_ok pf l2 ->
+    let fs' := save_all npy fn (l1 ++ (pf, m) :: l2)%list fs in
+    from_file unnpy fn pf fs' = Ok m /\ (forall t, load unnpy true t fn pf fs' = Ok m).
+  Proof.
+    intros Hfn Hwf Hl. destruct (history_roundtrip npy unnpy RTH fn pf m l1 l2 fs Hfn Hwf Hl) as (A & _ & B).
+    split; assumption.
+  Qed.
+
+  Lemma save_load_one fn pf (m : mineral X) (fs : @filesys blob) :
+    ends_with ".npz" fn = true -> wf m ->
+    let fs' := fst (save npy m fn pf fs) in
+    from_file unnpy fn pf fs' = Ok m /\ (forall t, load unnpy true t fn pf fs' = Ok m).
+  Proof. intros Hfn Hwf. exact (history_roundtrip_cur fn pf m [] [] fs Hfn Hwf (Forall_nil _)). Qed.
+
+  Lemma load_without_grain_count fn pf (m t : mineral X) (fs : @filesys blob) :
+    ends_with ".npz" fn = true -> wf m ->
+    exists r, load unnpy false t fn pf (fst (save npy m fn pf fs)) = Ok r /\
+      phase r = phase m /\ fabric r = fabric m /\ regime r = regime m /\
+      fractions r = fractions m /\ orientations r = orientations m /\
+      n_grains r = n_grains t /\ (n_grains t = n_grains m -> r = m).
+  Proof.
+    intros Hfn Hwf.
+    destruct (history_roundtrip npy unnpy RTH fn pf m [] [] fs Hfn Hwf (Forall_nil _)) as (_ & B & _).
+    exists (set_n (n_grains t) m). split; [apply B|]. repeat split.
+    intros E. rewrite E. apply set_n_same.
+  Qed.
+End Corollaries.
+
+Lemma postfix_keys_disjoint b b' p : key b p <> base_name b' /\ key b p <> member b' None.
+Proof. split; [apply key_not_plain | apply key_not_whole_member]. Qed.
+
+Lemma key_without_separator :
+  (forall b b' p p', key_nosep b p = key_nosep b' p' -> b = b' /\ p = p') /\
+  (forall b, key_nosep b ".npy" = member b None /\ key_nosep b "" = base_name b).
+Proof. split; [exact key_nosep_injective | exact key_nosep_collides]. Qed.
+
+Lemma npy_alias_both :
+  from_file wunnpy "a.npz" (Some "x") (fst (save wnpy w_m2 "a.npz" (Some "x.npy") [])) = Ok w_m2
+  /\
+  (let fs := fst (save wnpy w_t1 "a.npz" (Some "x") (fst (save wnpy w_m2 "a.npz" (Some "x.npy") []))) in
+   from_file wunnpy "a.npz" (Some "x") fs = Ok w_t1 /\
+   from_file wunnpy "a.npz" (Some "x.npy") fs = Ok w_m2).
+Proof. split; [exact npy_alias_witness | exact npy_alias_harmless]. Qed.
+
+Lemma C17_nonvacuous_proof :
+  wf w_m2 /\ (forall a, wunnpy (wnpy a) = Some a) /\ ends_with ".npz" "a.npz" = true /\
+  NoDup (map fst [("x", w_m2); ("x_y", w_t1)]).
+Proof.
+  split; [exact w_m2_wf|]. split; [intros a; reflexivity|]. split; [reflexivity|].
+  repeat constructor; cbn; intuition discriminate.
+Qed.
